@@ -252,6 +252,25 @@ func (x *Exec) specCall(env *evalEnv, n *ast.CallExpr) (Val, bool) {
 		a := x.expr(env, n.Args[0])
 		i := x.expr(env, n.Args[1])
 		return Val{"(runeAt " + a.S + " " + i.S + ")", types.Typ[types.Rune]}, true
+	case "printed_fmt":
+		x.ctx.decl("fun:printed_fmt", "(declare-fun printed_fmt (Int) Str)")
+		a := x.expr(env, n.Args[0])
+		return Val{"(printed_fmt " + a.S + ")", tString}, true
+	case "printed_int", "printed_str":
+		x.ctx.decl("fun:printed_int", "(declare-fun printed_int (Int Int) Int)")
+		x.ctx.decl("fun:printed_str", "(declare-fun printed_str (Int Int) Str)")
+		a := x.expr(env, n.Args[0])
+		k := x.expr(env, n.Args[1])
+		if id.Name == "printed_int" {
+			return Val{"(printed_int " + a.S + " " + k.S + ")", tInt}, true
+		}
+		return Val{"(printed_str " + a.S + " " + k.S + ")", tString}, true
+	case "backing":
+		a := x.expr(env, n.Args[0])
+		if _, ok := a.Ty.Underlying().(*types.Slice); !ok {
+			x.fail(n.Pos(), "backing() of a non-slice")
+		}
+		return Val{x.ctx.slBid(a), tInt}, true
 	case "iface_val":
 		a := x.expr(env, n.Args[0])
 		return Val{"(ival " + a.S + ")", tInt}, true
